@@ -1006,7 +1006,7 @@ func build(tier string) []*vkit.Scenario {
 func main() {
 	vkit.Main(&vkit.Spec{
 		Property: "C16", Level: "model_checking",
-		Rule: "core: one scenario = epoll mode x operation list of thread A (length <= 3 quick / <= 4 thorough) over SetReadDeadline/SetWriteDeadline/SetDeadline(now+5s | now+9s | zero time), Write(1) / Writev(2x1) (fit into the socket, K=3), Write(5) (leaves a backlog of 2), peer drain, 3 s sleep, Close; lists are pruned only where the last operation cannot matter (a clear with nothing to clear, a write without a write deadline, a drain with nothing sent, anything but one deadline set after Close, a trailing sleep); plus 8 lists that end in a close by nbio itself (write overflow, EPIPE after a peer reset). A clock thread fires the earliest virtual timer; every placement of a firing relative to A, the poller and the timer callbacks within the preemption bound (listed per scenario; free choices - which thread runs when one blocks or ends, which of two timers with equal deadlines fires - are always complete). keepalive: one scenario = HTTP | WebSocket x epoll mode x list of gaps (seconds slept before each request / message, drawn from values below, equal to and above the keep-alive time); firings while no exchange is in flight are placed by the scheduler, firings in the middle of an exchange at three offered points (after the client's write, at handler entry, after the upgrade) within the deviation bound. non-trivial = at least one deadline timer of the connection fired in the scenario",
+		Rule: "core: one scenario = epoll mode x operation list of thread A (length <= 3 quick / <= 4 thorough) over SetReadDeadline/SetWriteDeadline/SetDeadline(now+5s | now+9s | zero time), Write(1) / Writev(2x1) (fit into the socket, K=3), Write(5) (leaves a backlog of 2), peer drain, 3 s sleep, Close; lists are pruned only where the last operation cannot matter (a clear with nothing to clear, a write without a write deadline, a drain with nothing sent, anything but one deadline set after Close, a trailing sleep); plus 8 lists that end in a close by nbio itself (write overflow, EPIPE after a peer reset). A clock thread fires the earliest virtual timer; every placement of a firing relative to A, the poller and the timer callbacks within the preemption bound (listed per scenario; free choices - which thread runs when one blocks or ends, which of two timers with equal deadlines fires - are always complete). keepalive: one scenario = HTTP | WebSocket x epoll mode x list of gaps (seconds slept before each request / message, drawn from values below, equal to and above the keep-alive time) x handler duration (instantaneous, or 3 of the 7 s / 2 of the 4 s of virtual time spent inside the HTTP handler / the WebSocket message handler, during which the clock runs); firings while no exchange is in flight are placed by the scheduler, firings in the middle of an exchange at three offered points (after the client's write, at handler entry, after the upgrade) within the deviation bound. non-trivial = at least one deadline timer of the connection fired in the scenario",
 		Assumptions: []string{
 			"virtual time: the clock only moves when a timer fires and then jumps exactly to that timer's deadline; nbio reads it through time.Now/time.Until/AfterFunc/Reset. 'Never early' and 'at the deadline' are judged on the virtual time of the FIRING (the instant the runtime starts the AfterFunc callback), not on the time of the close notification, which nbio delivers asynchronously",
 			"reference model per direction: deadline = last non-zero Set*Deadline that returned; none after a zero-time set, after Close, after any close notification, and (write direction) after a Write/Writev call that returned with an empty backlog. A backlog emptied later by the poller's flush does not clear the write deadline in the model (SetWriteDeadline's doc comment), but a connection that is still open at the end in that situation would not be reported either",
@@ -1016,7 +1016,7 @@ func main() {
 			"cancelled = disarmed: after a clearing call returned, after Close returned, at every close notification, and after a Set*Deadline on a closed connection, the connection's deadline timers must not be armed and no armed AfterFunc timer may exist that the connection no longer refers to (the connection is the only creator of AfterFunc timers in these scenarios). A stale timer that would fire into a closed connection closes nothing, but the statement says closing cancels the deadline; such findings carry 'timer-armed-after-close ... via=<how it was closed>' and say so",
 			"fires: once thread A is done the clock thread keeps firing until no timer is armed; a connection that is then still open although the model has a deadline is reported (deadline-not-enforced)",
 			"the firing is done by a harness clock thread through vtime.FireNext instead of Options.AutoTimers so that the harness knows which timer fired, when, and in which model state; the schedules are a superset of AutoTimers' at the same bound (after a firing the choice between the interrupted thread, the callback and the next firing is free)",
-			"keep-alive: nbhttp.Engine with IOModNonBlocking, KeepaliveTime 7 s, ServerExecutor = one thread per job batch (the inline executor func(f){f()} deadlocks the poller when a close notification is queued behind a request that is being parsed - Parser.Parse holds the parser mutex while the job list runs CloseAndClean; already recorded under C18, notes/repro/C18_http_inline_executor_self_deadlock), websocket.Upgrader.KeepaliveTime 4 s. lastActivity = AddConnNonTLSNonBlocking, the end of each response (flushResponse's renewal, bracketed by handler entry and the return of the job batch), the upgrade, each text message. The client sends complete requests/messages only and waits for each exchange to complete before it sleeps again (pipelining and partial requests are C10/C06 subjects). Expected: closed with ErrReadTimeout by a firing at exactly lastActivity + keep-alive time (interval as above), never earlier; a firing while an exchange is in flight may go either way. TLS and the blocking I/O modes are not covered (DESIGN section 5)",
+			"keep-alive: nbhttp.Engine with IOModNonBlocking, KeepaliveTime 7 s, ServerExecutor = one thread per job batch (the inline executor func(f){f()} deadlocks the poller when a close notification is queued behind a request that is being parsed - Parser.Parse holds the parser mutex while the job list runs CloseAndClean; already recorded under C18, notes/repro/C18_http_inline_executor_self_deadlock), websocket.Upgrader.KeepaliveTime 4 s. lastActivity = AddConnNonTLSNonBlocking, the end of each response (flushResponse's renewal, bracketed by the END of the handler and the return of the job batch - a handler that takes 3 virtual seconds moves the expected close by 3 s), the upgrade (renewal inside Upgrade, bracketed by handler entry and return), the end of the handling of each text message. The client sends complete requests/messages only and waits for each exchange to complete before it sleeps again (pipelining and partial requests are C10/C06 subjects). Expected: closed with ErrReadTimeout by a firing at exactly lastActivity + keep-alive time (interval as above), never earlier; a firing while an exchange is in flight may go either way. TLS and the blocking I/O modes are not covered (DESIGN section 5)",
 			"not judged here: number of close notifications and errors returned by calls on a closed connection (C03), byte stream contents (C01), buffer ownership (C11; a fresh tracking allocator is installed per execution for isolation)",
 		},
 		Build: build, QuickBudget: 45 * time.Second, ThoroughBudget: 6 * time.Minute, MinNonTrivial: 300,
